@@ -1717,6 +1717,17 @@ impl proto::Peer for Peer {
 
         b = b.version(Version::HTTP_2);
 
+        // A response must not include any of the request pseudo-header fields.
+        if pseudo.method.is_some()
+            || pseudo.scheme.is_some()
+            || pseudo.authority.is_some()
+            || pseudo.path.is_some()
+            || pseudo.protocol.is_some()
+        {
+            proto_err!(stream: "malformed headers: request pseudo-header field on response; stream={:?}", stream_id);
+            return Err(Error::library_reset(stream_id, Reason::PROTOCOL_ERROR));
+        }
+
         if let Some(status) = pseudo.status {
             b = b.status(status);
         }
